@@ -728,6 +728,10 @@ def check_trace(ctx, mexe, mism, fails, dist, samples, seeds=None):
     for k, v in tot.items():
         dist["trace_" + k] = v
     dist["trace_runs"] = done
+    # an incompletely recorded last pass is not compared (counted); at least 95% of the recorded passes must have been
+    total_p = tot.get("passes", 0) + tot.get("incomplete_tail_pass", 0)
+    if total_p and tot.get("passes", 0) * 100 < 95 * total_p:
+        mism.append({"what": "trace replay: only %d of %d recorded manager passes were compared" % (tot.get("passes", 0), total_p), "detail": {}})
     if done == 0:
         mism.append({"what": "trace replay: no recorded run was replayed", "detail": {}})
     samples.append({"trace_replay_totals": tot})
